@@ -85,3 +85,56 @@ theorem C16_logs_list_accepted (cfg : Cfg) (s : Store) (r : Req) (f : Faults)
   · exact absurd h he
 
 end C16
+
+namespace C16
+open Api Wit
+
+/-- over any history of update requests the log list is exactly: the logs listed before, plus the logs named by
+    an accepted update — a refused submission (first or later) never creates an entry, an accepted one always does -/
+theorem C16_logs_list_run (cfg : Cfg) (reqs : List Req) (s : Store) (id : Bytes) :
+    id ∈ getLogs (run cfg s reqs).1 ↔
+      id ∈ getLogs s ∨ ∃ p ∈ reqs.zip (run cfg s reqs).2, p.1.logID = id ∧ p.2.err = .none := by
+  induction reqs generalizing s with
+  | nil => simp [run]
+  | cons r rs ih =>
+    have hrun : run cfg s (r :: rs) = ((run cfg (step cfg s r).1 rs).1, (step cfg s r).2 :: (run cfg (step cfg s r).1 rs).2) := by
+      simp [run]
+    rw [hrun]
+    simp only [List.zip_cons_cons, List.mem_cons, exists_eq_or_imp]
+    rw [ih]
+    by_cases hacc : (step cfg s r).2.err = .none
+    · obtain ⟨v, hids, _⟩ := C16_logs_list_accepted cfg s r {} hacc
+      have hmem : id ∈ getLogs (step cfg s r).1 ↔ id = r.logID ∨ id ∈ getLogs s := by
+        unfold step; rw [hids]
+        simp only [List.mem_cons, List.mem_map, List.mem_filter, getLogs, Store.ids]
+        constructor
+        · rintro (h | ⟨kv, ⟨hm, _⟩, rfl⟩)
+          · exact Or.inl h
+          · exact Or.inr ⟨kv, hm, rfl⟩
+        · rintro (h | ⟨kv, hm, rfl⟩)
+          · exact Or.inl h
+          · by_cases hk : kv.1 = r.logID
+            · exact Or.inl hk
+            · exact Or.inr ⟨kv, ⟨hm, by simpa using hk⟩, rfl⟩
+      rw [hmem]
+      constructor
+      · rintro ((h | h) | h)
+        · exact Or.inr (Or.inl ⟨h.symm, hacc⟩)
+        · exact Or.inl h
+        · exact Or.inr (Or.inr h)
+      · rintro (h | ⟨h, _⟩ | h)
+        · exact Or.inl (Or.inr h)
+        · exact Or.inl (Or.inl h.symm)
+        · exact Or.inr h
+    · have hst : (step cfg s r).1 = s := stepF_refused_store cfg s r {} hacc
+      rw [hst]
+      constructor
+      · rintro (h | h)
+        · exact Or.inl h
+        · exact Or.inr (Or.inr h)
+      · rintro (h | ⟨_, h⟩ | h)
+        · exact Or.inl h
+        · exact absurd h hacc
+        · exact Or.inr h
+
+end C16
